@@ -692,6 +692,62 @@ const (
 	FStream = "stream"
 )
 
+// farTTL rewrites small positive time-to-live arguments into far-future ones, so
+// that no verdict of the sequential families depends on the clock (C06 owns
+// the behaviour around deadlines).
+func farTTL(cmd Cmd) Cmd {
+	if len(cmd) == 0 {
+		return cmd
+	}
+	bump := func(i int, abs bool) {
+		if i >= len(cmd) {
+			return
+		}
+		n, err := strconv.ParseInt(string(cmd[i]), 10, 64)
+		if err != nil || n <= 0 {
+			return
+		}
+		if abs {
+			if n < 90000000000 {
+				cmd[i] = []byte("99999999999")
+			}
+			return
+		}
+		if n < 50000 {
+			cmd[i] = []byte(strconv.FormatInt(100000+n, 10))
+		} else if n > 100000000000 {
+			cmd[i] = []byte("199999") // now+n would overflow: an unspecified corner that only adds noise
+		}
+	}
+	switch strings.ToUpper(string(cmd[0])) {
+	case "BLPOP", "BRPOP":
+		// timeout 0 blocks for ever by definition: a single-client program must not issue it
+		if n := len(cmd); n >= 2 {
+			if f, err := strconv.ParseFloat(string(cmd[n-1]), 64); err == nil && (f == 0 || f > 1) {
+				cmd[n-1] = []byte("1")
+			}
+		}
+	case "SETEX", "EXPIRE":
+		bump(2, false)
+	case "SET":
+		for i := 3; i < len(cmd); i++ {
+			switch strings.ToUpper(string(cmd[i])) {
+			case "EX":
+				bump(i+1, false)
+			case "PX":
+				if i+1 < len(cmd) {
+					if n, err := strconv.ParseInt(string(cmd[i+1]), 10, 64); err == nil && n > 0 && (n < 50000000 || n > 100000000000000) {
+						cmd[i+1] = []byte(strconv.FormatInt(100000000+n%1000, 10))
+					}
+				}
+			case "EXAT":
+				bump(i+1, true)
+			}
+		}
+	}
+	return cmd
+}
+
 // Program generates one program of the family: optional prelude and steps.
 func Program(r *rand.Rand, family string, maxSteps int) []Cmd {
 	g := New(r)
@@ -723,6 +779,9 @@ func Program(r *rand.Rand, family string, maxSteps int) []Cmd {
 		case FStream:
 			prog = append(prog, g.Stream(st))
 		}
+	}
+	for i := range prog {
+		prog[i] = farTTL(prog[i])
 	}
 	return prog
 }
